@@ -190,7 +190,8 @@ let workflow_of (j : Json.t) : workflow =
     w_setup = List.map spec_of_json (Json.to_list (Json.get "setup" j)) }
 
 (* ---- client operations ---- *)
-type cop = CAct of int * action * (nat * val0) list | CTick of int
+(* `hold`: the action is issued while the scheduler is held, nothing is drained after it *)
+type cop = CAct of int * action * (nat * val0) list * bool | CTick of int
 let cop_of (j : Json.t) : cop =
   match Json.member "tick" j with
   | Some t -> CTick (Json.to_int t)
@@ -202,7 +203,7 @@ let cop_of (j : Json.t) : cop =
       | "back" -> ABack (match Json.get "to" o with Json.Str s -> (match nid_of_name s with Some k -> Some (nat_of_int k) | None -> Some (nat_of_int 99999)) | _ -> None)
       | "push" -> APush (match Json.get "uses" o with Json.Str _ -> true | _ -> false)
       | s -> raise (Case ("action " ^ s))) in
-    CAct (Json.to_int (Json.get "t" j), a, vars_of_json o)
+    CAct (Json.to_int (Json.get "t" j), a, vars_of_json o, (match Json.member "hold" j with Some (Json.Bool b) -> b | _ -> false))
 
 (* ---- traces ---- *)
 let sname = function SNone->"none"|SReady->"ready"|SPending->"pending"|SRunning->"running"|SInterrupt->"interrupted"
